@@ -83,44 +83,44 @@ func MarshalInternalMessage(m Message, s Serializer) ([]byte, error) {
 	return append([]byte{typ}, buf...), nil
 }
 
-func getMessage(typ byte) Message {
+func getMessage(typ byte) (Message, error) {
 	switch typ {
 	case messageTypeCreateShard:
-		return &CreateShardMessage{}
+		return &CreateShardMessage{}, nil
 	case messageTypeCreateIndex:
-		return &CreateIndexMessage{}
+		return &CreateIndexMessage{}, nil
 	case messageTypeDeleteIndex:
-		return &DeleteIndexMessage{}
+		return &DeleteIndexMessage{}, nil
 	case messageTypeCreateField:
-		return &CreateFieldMessage{}
+		return &CreateFieldMessage{}, nil
 	case messageTypeDeleteField:
-		return &DeleteFieldMessage{}
+		return &DeleteFieldMessage{}, nil
 	case messageTypeCreateView:
-		return &CreateViewMessage{}
+		return &CreateViewMessage{}, nil
 	case messageTypeDeleteView:
-		return &DeleteViewMessage{}
+		return &DeleteViewMessage{}, nil
 	case messageTypeClusterStatus:
-		return &ClusterStatus{}
+		return &ClusterStatus{}, nil
 	case messageTypeResizeInstruction:
-		return &ResizeInstruction{}
+		return &ResizeInstruction{}, nil
 	case messageTypeResizeInstructionComplete:
-		return &ResizeInstructionComplete{}
+		return &ResizeInstructionComplete{}, nil
 	case messageTypeSetCoordinator:
-		return &SetCoordinatorMessage{}
+		return &SetCoordinatorMessage{}, nil
 	case messageTypeUpdateCoordinator:
-		return &UpdateCoordinatorMessage{}
+		return &UpdateCoordinatorMessage{}, nil
 	case messageTypeNodeState:
-		return &NodeStateMessage{}
+		return &NodeStateMessage{}, nil
 	case messageTypeRecalculateCaches:
-		return &RecalculateCaches{}
+		return &RecalculateCaches{}, nil
 	case messageTypeNodeEvent:
-		return &NodeEvent{}
+		return &NodeEvent{}, nil
 	case messageTypeNodeStatus:
-		return &NodeStatus{}
+		return &NodeStatus{}, nil
 	case messageTypeDeleteAvailableShard:
-		return &DeleteAvailableShardMessage{}
+		return &DeleteAvailableShardMessage{}, nil
 	default:
-		panic(fmt.Sprintf("unknown message type %d", typ))
+		return nil, fmt.Errorf("unknown message type %d", typ)
 	}
 }
 
